@@ -30,9 +30,13 @@ type gbInst struct {
 
 var gbs = map[int]*gbInst{}
 
+// gbDebugLCD: the next machine is created with Config.DebugLCD (the 256x256 debugging picture); set by gb.newloop's DBG flag
+var gbDebugLCD bool
+
 func gbNew(idx int, path string, ser, aud, vid bool) {
 	inst := &gbInst{}
-	cfg := gameboy.Config{RomFilename: path, DisableVideoOutput: !vid, DisableAudioOutput: !aud}
+	cfg := gameboy.Config{RomFilename: path, DisableVideoOutput: !vid, DisableAudioOutput: !aud, DebugLCD: gbDebugLCD}
+	gbDebugLCD = false
 	if ser {
 		inst.ser = &bytes.Buffer{}
 		cfg.SerialWriter = inst.ser
@@ -121,7 +125,10 @@ func init() {
 		f.Write(img)
 		f.Close()
 		defer os.Remove(f.Name())
-		gbNew(ai(a, 1), f.Name(), true, optBool(a, 5, false), optBool(a, 6, false))
+		// gb.newloop I TYPE ROMCODE RAMCODE [AUD VID SER DBG]: SER = 0 configures no serial writer; DBG = 1 creates the machine
+		// with Config.DebugLCD (such a machine is only stepped, never observed: the model has no debugging picture)
+		gbDebugLCD = optBool(a, 8, false)
+		gbNew(ai(a, 1), f.Name(), optBool(a, 7, true), optBool(a, 5, false), optBool(a, 6, false))
 	})
 	// gb.newsame I TYPE ROMCODE RAMCODE [AUD VID]: like gb.newloop, but every image of the process is written to the same
 	// path (the file is rewritten for each machine, as a front end reloading "the current ROM" does)
